@@ -81,7 +81,7 @@ theorem C08_dispatch_shape :
     a union, boxed or interface; model `inlineCallbackField`) and start_type (when a C array typed
     field is not a pointer; model `arrayFieldIsPointer`). -/
 theorem C08_parser_shapes :
-    Gen.inlineCallbackShape = "case STATE_CLASS_FIELD: case STATE_STRUCT_FIELD: found = (found || strcmp (element_name, \"callback\") == 0); in_embedded_state = ctx->state; break; case STATE_UNION_FIELD: case STATE_BOXED_FIELD: case STATE_INTERFACE_FIELD: if (strcmp (element_name, \"callback\") == 0 && ctx->current_typed && ctx->current_typed->type == G_IR_NODE_FIELD && ((GIrNodeField *)ctx->current_typed)->type == NULL) { ((GIrNodeField *)ctx->current_typed)->type = parse_type (ctx, \"gpointer\"); state_switch (ctx, STATE_PASSTHROUGH); return TRUE; } break;"
+    Gen.inlineCallbackShape = "case STATE_CLASS_FIELD: case STATE_STRUCT_FIELD: found = (found || strcmp (element_name, \"callback\") == 0); in_embedded_state = ctx->state; break; case STATE_UNION_FIELD: case STATE_BOXED_FIELD: case STATE_INTERFACE_FIELD: if (strcmp (element_name, \"callback\") == 0 && ctx->current_typed && ctx->current_typed->type == G_IR_NODE_FIELD && ((GIrNodeField *)ctx->current_typed)->type == NULL) { ((GIrNodeField *)ctx->current_typed)->type = parse_type (ctx, \"gpointer\"); ctx->current_typed = NULL; state_switch (ctx, STATE_PASSTHROUGH); return TRUE; } break;"
     ∧ Gen.arrayFieldPointerShape = "if (typenode->has_size && ctx->current_typed->type == G_IR_NODE_FIELD) typenode->is_pointer = FALSE; else if (!typenode->has_length && ctx->current_typed->type == G_IR_NODE_FIELD) { const char *actype = find_attribute (\"c:type\", attribute_names, attribute_values); if (actype == NULL || !g_str_has_suffix (actype, \"*\")) typenode->is_pointer = FALSE; }" := by
   exact ⟨rfl, rfl⟩
 
